@@ -130,6 +130,19 @@ def run(F, rep, tier):
         ok = e is not None and not muts and not inst
     rep.check(ok, "add_merge|no-state-change-after-braid-error", "K2 err-edge action",
               "no self.heads mutation / perspective installation is reachable from evaluate_braid's Err edge", site=am.site())
+    # ... and none of the merged tips is retired *before* the braid's outcome is known either: every removal
+    # from self.heads in add_merge sits on the Ok edge of evaluate_braid (a merge refused with
+    # ParallelFinalize must leave the transaction's tips as they were, or a later commit no longer sees both finalize branches)
+    if len(eb) == 1:
+        oe = am.outcome_edges(eb[0])
+        okt = oe["Ok"][1] if "Ok" in oe else (oe["Continue"][1] if "Continue" in oe else None)
+        # (flushing the in-flight perspective first *adds* a tip and is fine; what must wait is the removal of the merged tips)
+        muts_all = [c for c in am.calls if c.name in ("remove", "clear", "retain", "pop_first", "pop_last", "split_off") and am.derives_from_field(c.args[0], "heads")]
+        early = [c.site() for c in muts_all if okt is None or not am.dominates(okt, c.bb)]
+        rep.check(bool(muts_all) and not early, "add_merge|tips-change-only-after-braid-succeeded", "K2 guarded-by",
+                  "every removal from self.heads in add_merge lies on the Ok edge of evaluate_braid (%d sites)" % len(muts_all),
+                  "Transaction::add_merge changes the transaction's tips before evaluate_braid has succeeded (%s): when the merge is refused (ParallelFinalize) the tips are already "
+                  "gone and a later commit of the same transaction no longer detects the concurrent finalize commands" % ", ".join(early), am.site())
     priority_order_rule(F, rep)
 
 
